@@ -147,7 +147,7 @@ def run(tier, seed, replay):
         print('  finding [%s] %s: %s' % (be, cid, desc[:300]))
     ass = ['scratch files live on the filesystem of /verif/work; buffered I/O only (direct I/O is not exercised: O_DIRECT support of the scratch filesystem is not assumed)',
            'a back end that cannot start in this sandbox is reported here and skipped: %s' % (dict(unavailable) or 'none skipped')]
-    cov = {'evaluations': stats['cases'], 'distinct_nontrivial': stats['cases'],
+    cov = {'evaluations': stats['cases'], 'distinct_nontrivial': qv.distinct_nontrivial(list(texts.values()), needs=('W ', 'Z ')), 'nontrivial_rule': 'distinct scripts with at least one write or punch',
            'rule': 'raw request sequences on an initially empty file: writes (512 B .. 3 MiB, unaligned lengths too) at 0 / EOF / beyond EOF / random, reads incl. zero-length, across and beyond EOF, punches inside / across / beyond EOF, syncs, final read-back; guest histories (write / read / discard / flush / shrink) on freshly formatted images of 3 cluster sizes x 3 refcount widths; compared: every result, final host file length + hash, final guest sweep hash',
            'samples': [texts[k] for k in list(texts)[:2]], 'distribution': dict(stats), 'backends_unavailable': dict(unavailable), 'findings_by_backend': dict(seen)}
     return common.finish('C19', tier, seed, 'exploration', gate, cov, t, violations, known, ass,
